@@ -223,6 +223,7 @@ def _url_files(n1, n2, b1, b2, tname):
                   "interface operator(+)", "module procedure run", "end interface", "interface operator(==)", "module procedure run", "end interface",
                   "interface operator(=)", "module procedure run", "end interface", "interface assignment(=)", "module procedure run", "end interface",
                   "interface operator(<)", "module procedure run", "end interface", "interface operator(<=)", "module procedure run", "end interface",
+                  "interface operator (-)", "module procedure run", "end interface", "interface assignment ( = )", "module procedure run", "end interface",
                   "contains", _choice.apply(lambda n: f"subroutine {n}()", n1), "integer :: init", "contains",
                   "subroutine helper()", "end subroutine helper", "end subroutine",
                   "subroutine run(self)", "class(*) :: self", "end subroutine run", "end module mod_a"],
@@ -256,6 +257,25 @@ def _all_entities(p):
     return out
 
 
+def _page_files(p):
+    """(entity, URL, file the real page class writes to) for every entity that gets a page of its own"""
+    import pathlib
+    import ford.output as out
+    res = []
+    lists = [(p.types, out.TypePage), (p.absinterfaces, out.AbsIntPage), (p.procedures, None), (p.submodprocedures, None), (p.modules, out.ModulePage),
+             (p.submodules, out.ModulePage), (p.programs, out.ProgPage), (p.blockdata, out.BlockPage), (p.namelists, out.NamelistPage)]
+    for lst, cls in lists:
+        for e in lst:
+            if cls is None:
+                cls_ = out.ProcedurePage if e.obj == "proc" else (out.GenericInterfacePage if getattr(e, "generic", False) else out.InterfacePage)
+            else:
+                cls_ = cls
+            pg = object.__new__(cls_)
+            pg.obj, pg.out_dir = e, pathlib.Path("/out")
+            res.append((e, e.get_url(), _choice.apply(str, pg.outfile) if isinstance(pg.outfile, _CV) else str(pg.outfile)))
+    return res
+
+
 def _describe(e):
     par = getattr(e, "parent", None)
     return f"{type(e).__name__}:{getattr(par, 'name', '')}/{getattr(e, 'name', '')}"
@@ -276,6 +296,9 @@ def replay_urls(w):
         if k in seen and seen[k] is not e and not _same_page_by_design(seen[k], e):
             dup.append((u, _describe(seen[k]), _describe(e)))
         seen.setdefault(k, e)
+    for e, url, outfile in _page_files(p):
+        if outfile != "/out/" + str(url):
+            dup.append((str(url), _describe(e), "page written to " + outfile))
     anchors = [(e, getattr(e, "parent", None), e.anchor) for e in ents if getattr(e, "parent", None) is not None]
     for i in range(len(anchors)):
         for j in range(i):
@@ -318,10 +341,14 @@ def urls(ctx):
         E.assume(_choice.apply(lambda a, t: a.lower() != t.lower(), n1, tn))
         E.e.snapshot = lambda m: {"slots": [_choice.value_in_model(m, x) for x in (n1, n2, b1, b2, tn)]}
         with contextlib.redirect_stdout(io.StringIO()), contextlib.redirect_stderr(io.StringIO()):
-            urls_, anchors = _parserh.project(_url_files(n1, n2, b1, b2, tn), post=lambda p: (
+            urls_, anchors, pagefiles = _parserh.project(_url_files(n1, n2, b1, b2, tn), post=lambda p: (
                 [(e, e.get_url()) for e in _all_entities(p)],
-                [(e, getattr(e, "parent", None), e.anchor) for e in _all_entities(p) if getattr(e, "parent", None) is not None]), **PSET10)
+                [(e, getattr(e, "parent", None), e.anchor) for e in _all_entities(p) if getattr(e, "parent", None) is not None],
+                _page_files(p)), post_modules=(__import__("ford.output").output,), **PSET10)
         E.reachable("urls")
+        # the file a page is written to is the file its entity's URL names
+        for e, url, outfile in pagefiles:
+            E.require(_choice.apply(lambda u, f: f == "/out/" + u, url, outfile), "an entity's page is written to another file than its URL names")
         # items summarised on their parent's page carry `id=anchor`: distinct children of one parent need distinct anchors
         for i in range(len(anchors)):
             for j in range(i):
